@@ -10,9 +10,13 @@
  * compute the same function, and they write nothing but their output.  What is NOT claimed:
  * that this function is the BLAKE3 compression function (units compress_spec_* are about that).
  *
- *   VERIF_UF_CIP  (cv[8], block[64], block_len, counter, flags) -> 256 bit  blake3_compress_in_place*
- *   VERIF_UF_XOF  (cv[8], block[64], block_len, counter, flags) -> 512 bit  blake3_compress_xof*, and
+ *   VERIF_UF_PRE  (cv[8], block[64], block_len, counter, flags) -> 512 bit  compress_pre: the 16 state words
+ *                                                       after the rounds, before the feed-forward
+ *   VERIF_UF_CIP  (same) -> 256 bit  = lo ^ hi               blake3_compress_in_place*   (lo, hi = the two
+ *   VERIF_UF_XOF  (same) -> 512 bit  = (lo ^ hi, hi ^ cv)    blake3_compress_xof*, and    halves of PRE)
  *                                                       block b of blake3_xof_many* with counter + b
+ *                 (the feed-forward is the part of the compression that lives in the two portable kernel
+ *                  functions themselves; units blake3_compress_{in_place,xof}_portable_fn check it)
  *   VERIF_UF_ROW  (row[64*blocks] zero-padded to 1024 bytes, key[8], counter, flags, flags_start,
  *                  flags_end, blocks) -> 256 bit       one input of blake3_hash_many* (blocks <= 16)
  *
@@ -27,10 +31,18 @@
 typedef unsigned __CPROVER_bitvector[256] verif_bv256;
 typedef unsigned __CPROVER_bitvector[512] verif_bv512;
 
-verif_bv256 __CPROVER_uninterpreted_blake3_cip(verif_bv256 cv, verif_bv512 block, uint8_t block_len,
+verif_bv512 __CPROVER_uninterpreted_blake3_pre(verif_bv256 cv, verif_bv512 block, uint8_t block_len,
                                                uint64_t counter, uint8_t flags);
-verif_bv512 __CPROVER_uninterpreted_blake3_xof(verif_bv256 cv, verif_bv512 block, uint8_t block_len,
-                                               uint64_t counter, uint8_t flags);
+/* on VALUES (cv as 256 bit, block as 512 bit): the state after the rounds, and the two feed-forwards */
+#define VERIF_PRE_V(cv, blk, bl, ctr, fl)                                                 \
+  __CPROVER_uninterpreted_blake3_pre((verif_bv256)(cv), (verif_bv512)(blk), (uint8_t)(bl), (uint64_t)(ctr), (uint8_t)(fl))
+#define VERIF_LO(p) ((verif_bv256)(p))
+#define VERIF_HI(p) ((verif_bv256)((p) >> 256))
+#define VERIF_CIP_V(cv, blk, bl, ctr, fl)                                                 \
+  (VERIF_LO(VERIF_PRE_V(cv, blk, bl, ctr, fl)) ^ VERIF_HI(VERIF_PRE_V(cv, blk, bl, ctr, fl)))
+#define VERIF_XOF_V(cv, blk, bl, ctr, fl)                                                 \
+  ((verif_bv512)VERIF_CIP_V(cv, blk, bl, ctr, fl) |                                       \
+   ((verif_bv512)(VERIF_HI(VERIF_PRE_V(cv, blk, bl, ctr, fl)) ^ (verif_bv256)(cv)) << 256))
 verif_bv256 __CPROVER_uninterpreted_blake3_row(
     verif_bv512, verif_bv512, verif_bv512, verif_bv512, verif_bv512, verif_bv512, verif_bv512, verif_bv512,
     verif_bv512, verif_bv512, verif_bv512, verif_bv512, verif_bv512, verif_bv512, verif_bv512, verif_bv512,
@@ -43,15 +55,11 @@ verif_bv256 __CPROVER_uninterpreted_blake3_row(
 /* two 32-byte CVs l, r as the 64-byte block of a parent node */
 #define V512_PAIR(l, r) ((verif_bv512)V256(l) | ((verif_bv512)V256(r) << 256))
 
-#define VERIF_UF_CIP(cv, blk, bl, ctr, fl)                                                \
-  __CPROVER_uninterpreted_blake3_cip(V256(cv), V512(blk), (uint8_t)(bl), (uint64_t)(ctr), (uint8_t)(fl))
-#define VERIF_UF_CIP_OLDCV(cv, blk, bl, ctr, fl)                                          \
-  __CPROVER_uninterpreted_blake3_cip(__CPROVER_old(V256(cv)), V512(blk), (uint8_t)(bl), (uint64_t)(ctr), (uint8_t)(fl))
-#define VERIF_UF_XOF(cv, blk, bl, ctr, fl)                                                \
-  __CPROVER_uninterpreted_blake3_xof(V256(cv), V512(blk), (uint8_t)(bl), (uint64_t)(ctr), (uint8_t)(fl))
-/* a parent node: block = two 32-byte CVs l, r (byte pointers), block_len 64, counter 0 */
-#define VERIF_UF_CIP_PARENT(key, l, r, fl)                                                \
-  __CPROVER_uninterpreted_blake3_cip(V256(key), V512_PAIR(l, r), (uint8_t)64, (uint64_t)0, (uint8_t)(fl))
+/* on pointers */
+#define VERIF_UF_PRE(cv, blk, bl, ctr, fl) VERIF_PRE_V(V256(cv), V512(blk), bl, ctr, fl)
+#define VERIF_UF_CIP(cv, blk, bl, ctr, fl) VERIF_CIP_V(V256(cv), V512(blk), bl, ctr, fl)
+#define VERIF_UF_CIP_OLDCV(cv, blk, bl, ctr, fl) VERIF_CIP_V(__CPROVER_old(V256(cv)), V512(blk), bl, ctr, fl)
+#define VERIF_UF_XOF(cv, blk, bl, ctr, fl) VERIF_XOF_V(V256(cv), V512(blk), bl, ctr, fl)
 
 /* block b (0..15) of a hash_many input of 64*blocks bytes, zero beyond the row */
 #ifndef VERIF_HM_MAXBLOCKS
